@@ -260,7 +260,7 @@ def generate():
         if not re.search(r"use_stack\s*\[\s*use_stack_ptr\s*\+\+\s*\]\s*=\s*descr\s*;", rule[cut:]):
             raise Untranslatable("<USE> rule: push `use_stack[use_stack_ptr++] = descr;` not found")
         me = re.search(r"^<<EOF>>\s*\{(.*?)^\}", scan, re.S | re.M)
-        if not me or not re.search(r"if\s*\(\s*--use_stack_ptr\s*<\s*0\s*\)", me.group(1)):
+        if not me or not re.search(r"if\s*\(\s*--\s*use_stack_ptr\s*<\s*0\s*\)|(?:use_stack_ptr\s*--|--\s*use_stack_ptr|use_stack_ptr\s*-=\s*1)\s*;\s*if\s*\(\s*use_stack_ptr\s*<\s*0\s*\)", me.group(1)):
             raise Untranslatable("<<EOF>> rule: `if (--use_stack_ptr < 0)` not found")
         if not re.search(r"moduletab_add_module\s*\(\s*modtab\s*,", rule[cut:]):
             raise Untranslatable("<USE> rule: moduletab_add_module not found")
